@@ -180,7 +180,7 @@ func c04runMode(c *Ctx, fl *featLab, p *pool, tz string, crossOnly bool) {
 			// quick: keep empty, fulls and every 2nd boundary class (seed offset)
 			var keep []values.LMsg
 			for j, v := range vals {
-				if j < 4 || (j+int(c.Seed))%2 == 0 {
+				if j < 4 || (j+int(c.Seed))%2 == 0 || priorityClass(v.Class) {
 					keep = append(keep, v)
 				}
 			}
